@@ -11,6 +11,7 @@ import (
 	"sort"
 	"strings"
 	"testing"
+	"time"
 
 	"verif/harness/wire"
 
@@ -192,6 +193,7 @@ type lister struct {
 	dead    bool
 	iu      int
 	snapped bool // a Tread at offset 0 was sent on this fid (the server holds a snapshot)
+	wedged  bool // a request was never answered: the connection is of no further use
 }
 
 func (l *lister) key(what string) string { return "c15:" + what + ":" + l.d.cls }
@@ -243,11 +245,18 @@ func (l *lister) mutated() {
 // (or -1 for an error reply) goes to the trace -- the property (C06) demands survival, and the
 // trace tells TLC what the transcribed window should have answered.
 func (l *lister) readAt(off uint64, count int) {
-	if l.dead {
+	if l.dead || wedgedCount >= 2 {
+		l.dead = true
 		return
 	}
 	l.cn.Tap.Frames()
-	data, err := l.cn.Clnt.Read(l.fid, off, uint32(count))
+	data, err, answered := readWithin(l.cn.Clnt, l.fid, off, uint32(count))
+	if !answered {
+		l.rep.Violate("c06:dir-offrule:no-reply:"+l.d.cls, fmt.Sprintf("directory Tread(off=%d,count=%d) (%s) was not answered within %v", off, count, l.cfg, replyWait), l.replay())
+		l.dead, l.wedged = true, true
+		wedgedCount++
+		return
+	}
 	frames := l.cn.Tap.Frames()
 	l.steps = append(l.steps, map[string]any{"s": "ReadAt", "off": off, "count": count})
 	l.rep.Add("treads", 1)
@@ -268,10 +277,36 @@ func (l *lister) readAt(off uint64, count int) {
 	}
 }
 
+// replyWait: a Tread served by an in-process Ufs over a pipe is answered in microseconds; one that is not answered within
+// this (real) time never will be (the file server is waiting for a lock nobody releases).
+const replyWait = 30 * time.Second
+
+// wedgedCount: requests never answered so far; after a few the engine stops (every further case would wait again).
+var wedgedCount int
+
+func readWithin(cl *go9p.Clnt, fid *go9p.Fid, off uint64, count uint32) ([]byte, error, bool) {
+	type res struct {
+		d []byte
+		e error
+	}
+	ch := make(chan res, 1)
+	go func() {
+		d, e := cl.Read(fid, off, count)
+		ch <- res{d, e}
+	}()
+	select {
+	case r := <-ch:
+		return r.d, r.e, true
+	case <-time.After(replyWait):
+		return nil, nil, false
+	}
+}
+
 // read sends one Tread (offset 0 if restart, else the offset the rule allows) and returns the
 // reply size, or -1 for an error reply.
 func (l *lister) read(restart bool, count int) int {
-	if l.dead {
+	if l.dead || wedgedCount >= 2 {
+		l.dead = true
 		return -2
 	}
 	if restart {
@@ -287,7 +322,14 @@ func (l *lister) read(restart bool, count int) int {
 	}
 	off := l.off
 	l.cn.Tap.Frames()
-	data, err := l.cn.Clnt.Read(l.fid, off, uint32(count))
+	data, err, answered := readWithin(l.cn.Clnt, l.fid, off, uint32(count))
+	if !answered {
+		l.rep.Violate(l.key("no-reply"), fmt.Sprintf("directory Tread(off=%d,count=%d) (%s, %d entries) was not answered within %v (earlier steps of this listing: %v)",
+			off, count, l.cfg, len(l.order), replyWait, l.steps), l.replay())
+		l.dead, l.wedged = true, true
+		wedgedCount++
+		return -2
+	}
 	data = append([]byte(nil), data...)
 	frames := l.cn.Tap.Frames()
 	act := "ReadNext"
@@ -507,6 +549,10 @@ func TestC15Tour(t *testing.T) {
 	caseID := 0
 	distinct := map[string]bool{}
 	for pi, p := range paths {
+		if wedgedCount >= 2 {
+			rep.Add("stopped_after_unanswered_requests", 1)
+			break
+		}
 		for _, dotu := range []bool{false, true} {
 			if len(p.Steps) == 0 || fmt.Sprint(p.Steps[0][0]) != "Mk" {
 				rep.Inconc("tour path does not start with Mk")
